@@ -209,3 +209,56 @@ def unit_row_end_signalled(twin=False):
     r.add("reach.row_writers", DISCHARGED if n >= 2 else UNDECIDED, "syntactic", 0, "%d" % n, kind="vacuity")
     r.assumptions += ["row writers are the per-SELECTED_OUTPUT loops that emit the newline themselves (punch_all, punch_model)", "text anchors"]
     return r
+
+
+def unit_sections_counts(twin=False):
+    """per section of a selected-output definition (-totals, -molalities, -activities, -equilibrium_phases, -saturation_indices, -gases,
+    -kinetic_reactants, -solid_solutions, -isotopes, -calculate_values): tidy_punch emits the same number of headings for one list item as
+    the punch_* routine emits cells for it, and that number does not depend on the path taken (an item that is not found still gets its
+    heading and its cell), so heading i stands over column i in every row"""
+    TIDY = "src/phreeqcpp/tidy.cpp"; PRINT = "src/phreeqcpp/print.cpp"; ISOT = "src/phreeqcpp/isotopes.cpp"
+    fn = A.find_function(TIDY, "Phreeqc::tidy_punch")
+    r = U.new_unit("C05.sections.headings_per_item==cells_per_item_on_every_path", TIDY, "Phreeqc::tidy_punch", fn)
+    getters = ["Get_totals", "Get_molalities", "Get_activities", "Get_pure_phases", "Get_si", "Get_gases", "Get_kinetics", "Get_isotopes", "Get_calculate_values"]
+    cellfn = {"Get_totals": (PRINT, "Phreeqc::punch_totals"), "Get_molalities": (PRINT, "Phreeqc::punch_molalities"), "Get_activities": (PRINT, "Phreeqc::punch_activities"),
+              "Get_pure_phases": (PRINT, "Phreeqc::punch_pp_assemblage"), "Get_si": (PRINT, "Phreeqc::punch_saturation_indices"), "Get_gases": (PRINT, "Phreeqc::punch_gas_phase"),
+              "Get_kinetics": (PRINT, "Phreeqc::punch_kinetics"), "Get_s_s": (PRINT, "Phreeqc::punch_ss_assemblage"), "Get_isotopes": (ISOT, "Phreeqc::punch_isotopes"),
+              "Get_calculate_values": (ISOT, "Phreeqc::punch_calculate_values")}
+    def counts(rel, q, G, callee):
+        f = A.find_function(rel, q)
+        loops = [x for x in A.walk(f) if x.get("kind") == "ForStmt"]
+        ks = [k for k, lp in enumerate(loops) if lp["inner"][2] is not None and (G + "().size()") in text_of(rel, lp["inner"][2]) and (callee + "(") in text_of(rel, lp["inner"][-1])]
+        out = set(); n = 0
+        for k in ks:
+            c = stop_on_error_msg(ctx(functional=()))
+            try:
+                fx, ex, its, info = U.run_loop_isolated(rel, q, k, ctx=c, inner_modes={"*": "iter"})
+            except Undecided as e:
+                return None, str(e)
+            for s in its:
+                if s.status not in ("run", "cont"):
+                    continue
+                n += 1
+                out.add(sum(1 for e in U.iter_events(s) if e.name.split("::")[-1] == callee))
+        return (out if n else None), "%d loops, %d paths" % (len(ks), n)
+    done = 0
+    for G in getters:
+        hs, why1 = counts(TIDY, "Phreeqc::tidy_punch", G, "fpunchf_heading")
+        rel, q = cellfn[G]
+        try:
+            cs, why2 = counts(rel, q, G, "fpunchf")
+        except Undecided as e:
+            cs, why2 = None, str(e)
+        sec = G[4:]
+        if hs is None or cs is None:
+            r.add("section[%s].loops_found" % sec, UNDECIDED, "symex", 0, "%s / %s" % (why1, why2)); continue
+        done += 1
+        r.add("section[%s].one_heading_count_on_every_path" % sec, DISCHARGED if len(hs) == 1 else FAILED, "trace", 0, "heading counts per item over the paths: %s" % sorted(hs))
+        r.add("section[%s].one_cell_count_on_every_path" % sec, DISCHARGED if len(cs) == 1 else FAILED, "trace", 0, "cell counts per item over the paths: %s" % sorted(cs))
+        same = len(hs) == 1 and hs == cs
+        if twin and sec == "si":
+            same = False
+        r.add("section[%s].headings_per_item==cells_per_item" % sec, DISCHARGED if same else FAILED, "trace", 0, "%s headings, %s cells" % (sorted(hs), sorted(cs)))
+    r.add("reach.sections", DISCHARGED if done >= 8 else UNDECIDED, "symex", 0, str(done), kind="vacuity")
+    r.assumptions += ["-solid_solutions is not decided here: punch_ss_assemblage emits its cell inside a nested search (found / not found), which needs a loop invariant this unit does not state", "the block headings written outside the item loops (e.g. pressure / total mol / volume of -gases) are paired by C05.punch_all.cells_follow_heading_order"]
+    return r
